@@ -5,8 +5,18 @@ package lsputil
 // Contracts for the govc verification-condition generator (/verif/DESIGN.md section 3.4).
 // This file is compiled only with the build tag "verif"; every contract line starts with //@.
 
+//@ specdef u2b(s string, i int, cnt int, n int) int := ite(i < 0 || i >= len(s) || cnt >= n, 0, runelen(rune(s, i)) + u2b(s, step(s, i), cnt + u16w(rune(s, i)), n))
+//@ specdef lineText(c string, k int) string := substr(c, LS(c, k), LE(c, k))
+//@ specdef trimCR(x string) string := ite(len(x) >= 1 && x[len(x) - 1] == '\r', substr(x, 0, len(x) - 1), x)
+//@ specdef l2b(c string, line int, ch int) int := ite(line >= NL(c), len(c), LS(c, line) + u2b(trimCR(lineText(c, line)), 0, 0, ch))
+//@ specdef clampLen(c string, a int) int := ite(a > len(c), len(c), a)
+//@ specdef spliceLo(c string, a int, b int) int := clampLen(c, ite(a > b, b, a))
+//@ specdef spliceHi(c string, a int, b int) int := clampLen(c, ite(a > b, a, b))
+//@ specdef applied(c string, sl int, sc int, el int, ec int, t string) string := concat(concat(substr(c, 0, spliceLo(c, l2b(c, sl, sc), l2b(c, el, ec))), t), substr(c, spliceHi(c, l2b(c, sl, sc), l2b(c, el, ec)), len(c)))
+
 //@ func UTF16OffsetToByteOffset
 //@   props C01 C06
+//@   ensures [fn] result == u2b(s, 0, 0, utf16Offset)
 //@   ensures [nonneg] result >= 0
 //@   ensures [valid_bnd] vld(s) ==> bnd(s, result) && result <= len(s)
 //@   ensures [valid_reach] vld(s) ==> u16(s, result) >= utf16Offset || result == len(s)
@@ -15,6 +25,7 @@ package lsputil
 //@   loop 1 invariant vld(s) ==> byteOffset == iterpos
 //@   loop 1 invariant utf16Count == u16(s, iterpos)
 //@   loop 1 invariant utf16Offset >= 0 && iterpos > 0 ==> utf16Count <= utf16Offset + 1
+//@   loop 1 invariant byteOffset + u2b(s, iterpos, utf16Count, utf16Offset) == u2b(s, 0, 0, utf16Offset)
 
 //@ func UTF16Len
 //@   props C01 C06
@@ -44,6 +55,7 @@ package lsputil
 //@ func (*PositionMapper).LSPToByte
 //@   props C01 C06
 //@   requires MapInv(m)
+//@   ensures [fn] result == l2b(m.content, pos.Line, pos.Character)
 //@   ensures [nonneg] result >= 0
 //@   ensures [line_past_end] pos.Line >= len(m.lines) ==> result == len(m.content)
 //@   ensures [valid_in_line] pos.Line < len(m.lines) && vld(m.lines[pos.Line]) ==> LS(m.content, pos.Line) <= result && result <= LE(m.content, pos.Line)
@@ -54,4 +66,4 @@ package lsputil
 //@ func (*PositionMapper).ApplyChange
 //@   props C01 C06
 //@   requires MapInv(m)
-//@   ensures [total] true
+//@   ensures [C01:splice] result == applied(m.content, r.Start.Line, r.Start.Character, r.End.Line, r.End.Character, text)
